@@ -25,6 +25,8 @@ CORPUS = [
     '(assert (_ bvX 3))', '(assert ((_ sign_extend x) #b1))', '(assert (bvcomp))', '(set-logic LIA)', '(assert (str.indexof))',
     '()', '(())', '((()))', '(let)', '(assert (let (()) x))', '(assert (let ((x)) x))', '(declare-const "s" Int)', '(declare-const |q x| Int)',
     '(assert (distinct))', '(assert (<))', '(assert (/ 1))', '(assert (/ 1 0))', '(declare-datatype)', '(declare-datatypes)',
+    '(assert (let ((x (_ bv0 (a)))) x))', '(assert (let ((x ((_ extract (1) 2) c))) x))', '(assert (let ((x ((_ zero_extend ()) c))) x))',
+    '(assert (let ((x (_ bv0))) x))', '(assert (let ((x (fp a))) x))', '(assert (let ((x (select))) x))', '(assert (let ((x (ite))) x))',
     '(define-sort)', '(define-sort S)', '(assert (forall ((x Int))))', '(assert ((_ divisible)))', '(assert ((_ to_fp 8) x))',
 ]
 
